@@ -332,3 +332,26 @@ macro_rules! index_struct {
         }
     }
 }
+
+/// Verification hook H4 (compiled only with `--cfg chalk_verif`): a thread-local work
+/// counter incremented once per iteration of the SLG root loop (`ensure_root_answer`).
+#[cfg(chalk_verif)]
+pub mod verif {
+    use std::cell::Cell;
+
+    thread_local! {
+        static WORK: Cell<u64> = Cell::new(0);
+    }
+
+    pub fn work() -> u64 {
+        WORK.with(|w| w.get())
+    }
+
+    pub fn reset_work() {
+        WORK.with(|w| w.set(0))
+    }
+
+    pub(crate) fn count_work() {
+        WORK.with(|w| w.set(w.get() + 1))
+    }
+}
